@@ -23,6 +23,53 @@ def access_log_docs():
     return out
 
 
+def tls_file_docs(crt, key, tdir):
+    """documents whose certificate / key / CA files exist but do not hold what they should: empty, prose, the other kind
+    of PEM item, a directory, missing - for TLS listeners (http, quic, client-certificate CA) and TLS connectors"""
+    import os
+    os.makedirs(tdir, exist_ok=True)
+    files = {"empty": os.path.join(tdir, "empty.pem"), "prose": os.path.join(tdir, "prose.pem"), "dir": tdir, "missing": os.path.join(tdir, "no-such.pem"),
+             "cut": os.path.join(tdir, "cut.pem"), "cert": crt, "key": key}
+    open(files["empty"], "w").close()
+    open(files["prose"], "w").write("this is not a PEM file\n")
+    open(files["cut"], "w").write(open(key).read()[:200])
+    out = []
+    for what, f in files.items():
+        for role in ("key", "cert", "client-ca", "connector-ca", "connector-auth-key", "connector-auth-cert"):
+            if (what, role) in (("key", "key"), ("cert", "cert"), ("cert", "client-ca"), ("cert", "connector-ca"), ("key", "connector-auth-key"), ("cert", "connector-auth-cert")):
+                continue
+            d = {"apiVersion": "v1alpha", "kind": "ProxyDefinition", "listeners": [], "connectors": [{"name": "direct"}], "rules": [{"target": "direct"}]}
+            tls_l = {"cert": crt, "key": key}
+            if role == "key":
+                tls_l["key"] = f
+            elif role == "cert":
+                tls_l["cert"] = f
+            elif role == "client-ca":
+                tls_l["client"] = {"ca": f, "required": True}
+            if role in ("key", "cert", "client-ca"):
+                d["listeners"] = [{"name": "https", "type": "http", "bind": "127.0.0.1:0", "tls": tls_l}]
+                out.append(("tls file: listener %s is %s" % (role, what), d))
+                d2 = json_copy(d)
+                d2["listeners"] = [{"name": "quic", "type": "quic", "bind": "127.0.0.1:0", "tls": tls_l}]
+                out.append(("tls file: quic listener %s is %s" % (role, what), d2))
+            else:
+                tls_c = {"insecure": False}
+                if role == "connector-ca":
+                    tls_c["ca"] = f
+                elif role == "connector-auth-key":
+                    tls_c["auth"] = {"cert": crt, "key": f}
+                else:
+                    tls_c["auth"] = {"cert": f, "key": key}
+                d["connectors"].append({"name": "up", "type": "http", "server": "127.0.0.1", "port": 9, "tls": tls_c})
+                out.append(("tls file: %s is %s" % (role, what), d))
+    return out
+
+
+def json_copy(d):
+    import json
+    return json.loads(json.dumps(d))
+
+
 def bases(crt, key):
     tls_s = {"cert": crt, "key": key}
     b1 = {
@@ -47,7 +94,7 @@ def bases(crt, key):
             {"name": "socks", "server": "127.0.0.1", "port": 1080},
             {"name": "socks4", "type": "socks", "server": "127.0.0.1", "port": 1080, "version": 4},
             {"name": "socks-tls", "type": "socks", "server": "127.0.0.1", "port": 9123, "auth": {"username": "proxy", "password": "pw"}, "tls": {"insecure": True}},
-            {"name": "quic", "server": "127.0.0.1", "port": 7081, "inline_udp": False, "tls": {"insecure": True}},
+            {"name": "quic", "server": "127.0.0.1", "port": 7081, "inlineUdp": False, "tls": {"insecure": True}},
             {"name": "lb", "type": "loadbalance", "connectors": ["direct", "http"], "algo": {"hashBy": "request.source.host"}},
             {"name": "lb2", "type": "loadbalance", "connectors": ["lb", "socks"]},
         ],
